@@ -365,21 +365,27 @@ theorem okUnit_refd {g : Grid} {x : Grid × R Handle} (h : Refd x g) : Refd (okU
 
 /-- a directory handler with nothing writeable in reach: unchanged, and refused unless the request is
 of the "already done" mkdir form -/
-theorem renderDir_ro (g : Grid) (node : Handle) (parent) (r : Req) (h : HRO (.dir node parent)) :
+theorem renderDir_gen (g : Grid) (node : Handle) (parent) (r : Req) (hn : node.w = false)
+    (hp' : r.meth = .post ∨ ∀ pp nm, parent = some (pp, nm) → pp.w = false) :
     (renderDir true g node parent r).1 = g ∧
     ((renderDir true g node parent r).2.refused = true ∨ r.alreadyDoneForm = true) := by
-  obtain ⟨hn, hp⟩ := h
   have key : ∀ x : Grid × R Unit, Refd x g → x.1 = g ∧ (x.2.refused = true ∨ r.alreadyDoneForm = true) :=
     fun x hx => ⟨hx.1, Or.inl hx.2⟩
   unfold renderDir
   split
-  · exact key _ (withParent_ro g parent _ _ hp
-      (fun p n hpw => by rw [deleteChild_ro g p n hpw]; exact refd_err g _))
+  · rename_i hm
+    rcases hp' with hpost | hp
+    · rw [hpost] at hm; cases hm
+    · exact key _ (withParent_ro g parent _ _ hp
+        (fun p n hpw => by rw [deleteChild_ro g p n hpw]; exact refd_err g _))
   · rename_i hm ht
     exact ⟨rfl, Or.inr (by simp [Req.alreadyDoneForm, hm, ht])⟩
-  · split
-    · exact key _ (refd_err g _)
-    · exact key _ (withParent_ro g parent _ _ hp (fun p n hpw => replaceWithCap_ro g p n r hpw))
+  · rename_i hm ht
+    rcases hp' with hpost | hp
+    · rw [hpost] at hm; cases hm
+    · split
+      · exact key _ (refd_err g _)
+      · exact key _ (withParent_ro g parent _ _ hp (fun p n hpw => replaceWithCap_ro g p n r hpw))
   · exact key _ (refd_err g _)
   · rename_i hm ht
     split
@@ -428,6 +434,11 @@ theorem renderDir_ro (g : Grid) (node : Handle) (parent) (r : Req) (h : HRO (.di
   · exact key _ (setChildren_ro g node _ _ hn)
   · exact key _ (refd_err g _)
 
+theorem renderDir_ro (g : Grid) (node : Handle) (parent) (r : Req) (h : HRO (.dir node parent)) :
+    (renderDir true g node parent r).1 = g ∧
+    ((renderDir true g node parent r).2.refused = true ∨ r.alreadyDoneForm = true) :=
+  renderDir_gen g node parent r h.1 (Or.inr h.2)
+
 theorem render_ro (g : Grid) (hd : Handler) (r : Req) (h : HRO hd) :
     (render true g hd r).1 = g ∧
     ((render true g hd r).2.refused = true ∨ r.alreadyDoneForm = true) := by
@@ -458,6 +469,97 @@ theorem serve_of_traverse (g : Grid) (c : Cap) (path : List Nat) (r : Req)
     · simp [R.refused] at hor
     · cases heq
       exact render_ro g1 hd r hro
+
+/-! ### the addressed node itself is reached read-only (its parent may be writeable) -/
+
+/-- dead-end handlers -/
+def Dead (hd : Handler) : Prop :=
+  hd = .unknown ∨ (∃ e, hd = .errorPage e)
+
+/-- the handler is the one `make_handler_for` builds for node `h`, or a dead end -/
+def TracksK (g : Grid) (hd : Handler) (h : Handle) : Prop :=
+  (∃ p, hd = makeHandlerFor g h p) ∨ Dead hd
+
+theorem stepSeg_dead (g : Grid) (hd : Handler) (n : Nat) (term : Bool) (r : Req) (h : Dead hd) :
+    ∃ hd1, stepSeg g hd n term r = (g, .ok hd1) ∧ Dead hd1 := by
+  rcases h with rfl | ⟨e, rfl⟩ <;> exact ⟨_, rfl, Or.inr ⟨_, rfl⟩⟩
+
+theorem stepSeg_tracksK (g : Grid) (hd : Handler) (h c : Handle) (n : Nat) (term : Bool) (r : Req)
+    (t : TracksK g hd h) (hc : getChild? g h n = some c) :
+    ∃ hd1, stepSeg g hd n term r = (g, .ok hd1) ∧ TracksK g hd1 c := by
+  rcases t with ⟨p, rfl⟩ | hdead
+  · unfold makeHandlerFor
+    cases kindOf g h.addr with
+    | none => exact ⟨_, rfl, Or.inr (Or.inr ⟨_, rfl⟩)⟩
+    | some k =>
+      simp only
+      split
+      · unfold stepSeg
+        simp only [hc]
+        split
+        · exact ⟨_, rfl, Or.inr (Or.inr ⟨_, rfl⟩)⟩
+        · exact ⟨_, rfl, Or.inl ⟨_, rfl⟩⟩
+      · exact ⟨_, rfl, Or.inr (Or.inr ⟨_, rfl⟩)⟩
+  · obtain ⟨hd1, hs, hd⟩ := stepSeg_dead g hd n term r hdead
+    exact ⟨hd1, hs, Or.inr hd⟩
+
+/-- along a path that resolves, the traversal changes nothing and ends at the handler of the resolved node -/
+theorem traverse_tracksK (r : Req) (last : Nat) (g : Grid) (path : List Nat) :
+    ∀ (hd : Handler) (h hdl : Handle), TracksK g hd h → resolve g h path = some hdl →
+    ∃ hd', traverse g hd r last path = (g, .ok hd') ∧ TracksK g hd' hdl := by
+  induction path with
+  | nil =>
+    intro hd h hdl t hr
+    simp only [resolve, Option.some.injEq] at hr
+    subst hr
+    exact ⟨hd, rfl, t⟩
+  | cons n rest ih =>
+    intro hd h hdl t hr
+    simp only [resolve] at hr
+    cases hc : getChild? g h n with
+    | none => simp [hc] at hr
+    | some c =>
+      simp only [hc] at hr
+      obtain ⟨hd1, hs, t1⟩ := stepSeg_tracksK g hd h c n (n == last) r t hc
+      simp only [traverse, hs]
+      exact ih hd1 c hdl t1 hr
+
+theorem rootHandler_tracksK (g : Grid) (c : Cap) : TracksK g (rootHandler g c) (capHandle g c) := by
+  unfold rootHandler
+  split
+  · exact Or.inr (Or.inl rfl)
+  · exact Or.inl ⟨_, rfl⟩
+
+/-- a POST rendered by the handler of a node reached read-only that is a directory or a mutable file -/
+theorem render_post_target_ro (g : Grid) (hd : Handler) (hdl : Handle) (r : Req) (t : TracksK g hd hdl)
+    (hw : hdl.w = false) (hpost : r.meth = .post) (hk : isDirAt g hdl.addr = true ∨ isMutableAt g hdl.addr = true) :
+    (render true g hd r).1 = g ∧ ((render true g hd r).2.refused = true ∨ r.alreadyDoneForm = true) := by
+  rcases t with ⟨p, rfl⟩ | hdead
+  · unfold makeHandlerFor
+    cases hkind : kindOf g hdl.addr with
+    | none => exact ⟨rfl, Or.inl rfl⟩
+    | some k =>
+      simp only
+      split
+      · exact renderDir_gen g hdl p r hw (Or.inl hpost)
+      · rename_i hnd
+        have hmut : isMutableAt g hdl.addr = true := by
+          rcases hk with hk | hk
+          · simp [isDirAt, hkind] at hk; exact absurd hk hnd
+          · exact hk
+        have : Refd (renderFile true g hdl p r) g := by
+          unfold renderFile
+          rw [hpost]
+          simp only
+          repeat' split
+          all_goals first
+            | exact refd_err g _
+            | exact overwrite_ro g hdl hw
+            | (exfalso; simp_all)
+        exact ⟨this.1, Or.inl this.2⟩
+  · rcases hdead with rfl | ⟨e, rfl⟩
+    · exact ⟨rfl, Or.inl rfl⟩
+    · exact ⟨rfl, Or.inl rfl⟩
 
 /-! ### renderers -/
 
